@@ -200,6 +200,31 @@ def gen_layout(rng, idx):
                 disk.append((d + p, ['aux', 70 + i, 'normal']))
     # a decoy-free copy of a document in a different directory as well
     disk.append((zrel, ['zip']))
+    # symbolic links: a document reached through a linked FILE (its own location is the link's
+    # directory, which holds same-named auxiliary files with other contents) and through a linked
+    # DIRECTORY (everything under the target is visible under the link's name)
+    links, virtual = [], []
+    if docs and rng.random() < 0.6:
+        n, k = rng.choice(docs)
+        ldir = rng.choice(['lnk_c16', 'lnk_c16/inner'])
+        lname = ldir + '/' + rng.choice(['linked.dae', 'Linked.DAE', 'linked'])
+        links.append((lname, n))
+        virtual.append((lname, k))
+        for i, b in enumerate(images_basenames(aux)):
+            for dd in sorted({ldir, ldir + '/sub', ldir + '/tex', 'lnk_c16'}):
+                nm = dd + '/' + b
+                if nm not in used and rng.random() < 0.7:
+                    used.add(nm)
+                    disk.append((nm, ['aux', 50 + i, rng.choice(['normal', 'normal', 'one'])]))
+    nested = [d for d in docs if '/' in d[0]]
+    if nested and rng.random() < 0.6:
+        n, k = rng.choice(nested)
+        tdir = n.split('/')[0]                       # link to the top directory of that document
+        lroot = rng.choice(['dlink_c16', 'lnk_c16/dlink'])
+        links.append((lroot, tdir))
+        for fn, fk in list(disk):
+            if fn.startswith(tdir + '/') and fk[0] != 'zip':
+                virtual.append((lroot + fn[len(tdir):], fk))
     # loads
     loads = []
 
@@ -229,7 +254,8 @@ def gen_layout(rng, idx):
     add('file', zrel, rng.choice(zfs), True)
     add('abspath', zrel, None, False)
     add('abspath', zrel, rng.choice(zfs), rng.random() < 0.3)
-    for n, k in docs + renamed:
+    linked_docs = [(n, k) for n, k in virtual if k[0] == 'doc']
+    for n, k in docs + renamed + linked_docs:
         for src in ('path', 'bytes', 'file', 'abspath'):
             for loader in (False, True):
                 if loader and rng.random() < 0.5:
@@ -237,7 +263,7 @@ def gen_layout(rng, idx):
                 add(src, n, rng.choice([None, None, n, 'zz.dae']), loader, ignore=rng.random() < 0.3)
     return {'members': [list(m) for m in members], 'disk': [list(d) for d in disk], 'images': images,
             'user_map': user_map, 'loads': loads, 'ambiguous_selection': ambiguous, 'zip': zrel,
-            'zip_variant': zip_variant}
+            'zip_variant': zip_variant, 'links': [list(l) for l in links], 'disk_virtual': [list(v) for v in virtual]}
 
 
 # ------------------------------------------------------------------ encoding
@@ -249,8 +275,9 @@ def c_fsys(I, entries):
 def c_case(case, res):
     I = Interner()
     cwd = res['cwd']
-    disk_kind = dict((r, k) for r, k in case['disk'])
-    disk = [(n, k) for n, k in case['disk']] + [(cwd + '/' + n, k) for n, k in case['disk']]
+    alld = list(case['disk']) + list(case.get('disk_virtual', []))
+    disk_kind = dict((r, k) for r, k in alld)
+    disk = [(n, k) for n, k in alld] + [(cwd + '/' + n, k) for n, k in alld]
     loads = []
     for ld, ob in zip(case['loads'], res['obs']):
         tk = disk_kind[ld['target']]
@@ -433,7 +460,7 @@ def run(ctx):
     # distribution
     dist = {'loads': 0, 'by_source': {}, 'with_user_loader': 0, 'with_zip_filename': 0, 'ignore': 0,
             'load_outcomes': {}, 'image_outcomes': {}, 'decoy_first': 0, 'only_decoys': 0, 'no_dae': 0,
-            'several_docs': 0, 'loader_forms': {}, 'stream_offsets': 0, 'write_before_data': {}, 'zip_variants': {}, 'memberless_archives': 0, 'aux_forms': {}, 'user_answers': {}, 'uppercase_ext_selected': 0, 'archive_file_names': {}, 'plain_documents_under_other_names': 0, 'depth_of_selected': {}, 'image_path_forms': {}}
+            'several_docs': 0, 'layouts_with_symlinks': 0, 'loads_through_symlinks': 0, 'loader_forms': {}, 'stream_offsets': 0, 'write_before_data': {}, 'zip_variants': {}, 'memberless_archives': 0, 'aux_forms': {}, 'user_answers': {}, 'uppercase_ext_selected': 0, 'archive_file_names': {}, 'plain_documents_under_other_names': 0, 'depth_of_selected': {}, 'image_path_forms': {}}
     seen_h = set()
     for c, r in zip(cases, results):
         seen_h.add(core.canon_hash([c['members'], c['images'], c['loads']]))
@@ -445,6 +472,9 @@ def run(ctx):
             dist['only_decoys'] += 1
         if not dae:
             dist['no_dae'] += 1
+        dist['layouts_with_symlinks'] += bool(c.get('links'))
+        vnames = {v[0] for v in c.get('disk_virtual', [])}
+        dist['loads_through_symlinks'] += sum(1 for ld in c['loads'] if ld['target'] in vnames)
         dist['zip_variants'][c.get('zip_variant')] = dist['zip_variants'].get(c.get('zip_variant'), 0) + 1
         dist['memberless_archives'] += not c['members']
         for m in c['members']:
